@@ -189,11 +189,16 @@ func (r *bufRun) producers(maxProd int) {
 	type plan struct {
 		batches []int
 		pauses  []pause
+		reuse   bool // the producer reuses one argument slice for all its calls and scribbles over it after each Put
 	}
 	plans := make([]plan, nProd)
 	for p := range plans {
+		plans[p].reuse = simrt.Chance(1, 4)
 		for k := simrt.DrawRange(1, 4); k > 0; k-- {
 			n := simrt.DrawRange(0, 3)
+			if simrt.Chance(1, 10) {
+				n = simrt.DrawRange(4, 40) // an occasional large batch
+			}
 			plans[p].batches = append(plans[p].batches, n)
 			plans[p].pauses = append(plans[p].pauses, drawPause())
 			r.total += n
@@ -206,10 +211,21 @@ func (r *bufRun) producers(maxProd int) {
 		go func() {
 			defer func() { r.tasksLeft-- }()
 			seq := 0
+			var scratch []interface{}
 			for c, n := range pl.batches {
 				pl.pauses[c].do(r.unit)
 				put := &bufPut{prod: p, call: c}
 				vals := make([]interface{}, n)
+				if pl.reuse {
+					if cap(scratch) < n {
+						scratch = make([]interface{}, n)
+					}
+					vals = scratch[:n]
+					simrt.Probe("producer_reuses_argument_slice")
+				}
+				if n > 16 {
+					simrt.Probe("large_batch")
+				}
 				for i := 0; i < n; i++ {
 					v := Val{P: p, C: c, I: i, Seq: seq}
 					seq++
@@ -225,6 +241,12 @@ func (r *bufRun) producers(maxProd int) {
 				if err != nil {
 					simrt.Failf(r.mode.prop+".put-failed", "Put on an open buffer failed: %v", err)
 					return
+				}
+				if pl.reuse {
+					// the caller owns its argument slice again once Put has returned
+					for i := range vals {
+						vals[i] = Val{P: -1, C: c, I: i}
+					}
 				}
 			}
 		}()
